@@ -90,7 +90,7 @@ impl Rpc {
     #[verifier::external_body]
     pub fn datastore(&self, request: &DatastoreRequest, Tracked(w): Tracked<&mut World>) -> (r: ::std::result::Result<DatastoreResponse, RpcError>)
         requires
-            !old(w).lock_held,                       // #no_rpc_under_lock [C14,C06]
+            !old(w).lock_held,                       // #no_rpc_under_lock [C14,C06,C11]
             is_hash_key(key_view(request.key), old(w).hash),   // #keys_namespaced_by_payment_hash [C14,C01,C05,C09]
             safe_write(*old(w), *request),           // #write_preserves_durable_invariant [C08,C02,C05,C01,C09]
         ensures ds_call(*old(w), *request, r, *final(w)),
@@ -99,7 +99,7 @@ impl Rpc {
     #[verifier::external_body]
     pub fn listdatastore(&self, request: &ListdatastoreRequest, Tracked(w): Tracked<&mut World>) -> (r: ::std::result::Result<ListdatastoreResponse, RpcError>)
         requires
-            !old(w).lock_held,                       // #no_rpc_under_lock [C14,C06]
+            !old(w).lock_held,                       // #no_rpc_under_lock [C14,C06,C11]
             request.key is Some && is_hash_key(key_view(request.key->0), old(w).hash),   // #keys_namespaced_by_payment_hash [C14,C01,C05,C09]
         ensures
             rely(World { wait_started_ns: final(w).wait_started_ns, ..*old(w) }, *final(w)),
